@@ -180,6 +180,7 @@ pub struct CellResult {
     pub log: Vec<String>,
     pub refused: bool,
     pub steps: u64,
+    pub stats: Stats,
 }
 
 fn session_digest(s: &mqtt::connection::core::verif::VerifState) -> String {
@@ -192,16 +193,16 @@ pub fn run_c11_cell(c: &Cell) -> CellResult {
     let mut p = reps[c.k].clone();
     let desc = format!("role={:?} acting={} ver={:?} wire=v{} status={:?} flag={:?} packet={}v{}{}", c.role, if c.as_client { "client" } else { "server" }, c.ver, c.wire_v, c.status, c.flag, wire::kind_name(p.kind), p.v, if p.kind == wire::PUBLISH { format!(" q{}", p.qos) } else { String::new() });
     if s.w.failed() {
-        return CellResult { desc, viol: s.w.viol.clone(), log: s.w.log.clone(), refused: false, steps: s.w.step as u64 };
+        return CellResult { desc, viol: s.w.viol.clone(), log: s.w.log.clone(), refused: false, steps: s.w.step as u64, stats: s.w.stats.clone() };
     }
     if s.w.m.st != c.status {
         // e.g. undetermined server: the status is reachable, the version is then determined
-        return CellResult { desc: format!("{desc} (status not reached)"), viol: None, log: vec![], refused: false, steps: 0 };
+        return CellResult { desc: format!("{desc} (status not reached)"), viol: None, log: vec![], refused: false, steps: 0, stats: Stats::default() };
     }
     if needs_fresh_id(&p) {
         match s.w.acquire() {
             Some(i) => p.id = Some(i),
-            None => return CellResult { desc, viol: s.w.viol.clone(), log: s.w.log.clone(), refused: false, steps: 0 },
+            None => return CellResult { desc, viol: s.w.viol.clone(), log: s.w.log.clone(), refused: false, steps: 0, stats: Stats::default() },
         }
     } else if matches!(p.kind, wire::PUBACK | wire::PUBREC | wire::PUBCOMP | wire::SUBACK | wire::UNSUBACK) {
         p.id = Some(1);
@@ -227,7 +228,7 @@ pub fn run_c11_cell(c: &Cell) -> CellResult {
             viol = Some(Violation { props: vec!["C11"], class: format!("refused-send-leaves-trace/{}", wire::kind_name(p.kind)), msg: format!("{desc}: state changed by a refused send: {d}"), step: s.w.step });
         }
     }
-    CellResult { desc, viol, log: s.w.log.clone(), refused, steps: s.w.step as u64 }
+    CellResult { desc, viol, log: s.w.log.clone(), refused, steps: s.w.step as u64, stats: s.w.stats.clone() }
 }
 
 fn c17_frame(c: &Cell, idw: usize) -> Vec<u8> {
@@ -284,10 +285,10 @@ pub fn run_c17_cell(c: &Cell) -> CellResult {
     let nib = if c.k >= 16 { 1 } else { c.k };
     let desc = format!("role={:?} acting={} ver={:?} wire=v{} status={:?} flag={:?} frame={}{}", c.role, if c.as_client { "client" } else { "server" }, c.ver, c.wire_v, c.status, c.flag, wire::kind_name(nib as u8), if c.k == 16 { " level 3" } else if c.k == 17 { " level 6" } else { "" });
     if s.w.failed() {
-        return CellResult { desc, viol: s.w.viol.clone(), log: s.w.log.clone(), refused: false, steps: s.w.step as u64 };
+        return CellResult { desc, viol: s.w.viol.clone(), log: s.w.log.clone(), refused: false, steps: s.w.step as u64, stats: s.w.stats.clone() };
     }
     if s.w.m.st != c.status {
-        return CellResult { desc: format!("{desc} (status not reached)"), viol: None, log: vec![], refused: false, steps: 0 };
+        return CellResult { desc: format!("{desc} (status not reached)"), viol: None, log: vec![], refused: false, steps: 0, stats: Stats::default() };
     }
     // something in the session so that "session state untouched" means something
     if c.status == St::Connected && c.flag == Flag::Persistent {
@@ -311,7 +312,7 @@ pub fn run_c17_cell(c: &Cell) -> CellResult {
             viol = Some(Violation { props: vec!["C17"], class: "version-adopted-from-rejected-packet".into(), msg: desc.clone(), step: s.w.step });
         }
     }
-    CellResult { desc, viol, log: s.w.log.clone(), refused, steps: s.w.step as u64 }
+    CellResult { desc, viol, log: s.w.log.clone(), refused, steps: s.w.step as u64, stats: s.w.stats.clone() }
 }
 
 // ------------------------------------------------------------------ compile-time clause of C11
